@@ -42,6 +42,15 @@ package backup
 //@   modifies c.nstreams
 //@ iface regattapb.Maintenance_RestoreClient.Send
 //@   assumed
+//@   params st, m
+//@   modifies nothing
+// Writer.Write (the upload side of a restore): one message per Write, a chunk carrying exactly p and its length
+//@ func (Writer).Write
+//@   params g, p
+//@   results n, err
+//@   requires g.Sender != nil
+//@   before regattapb.Maintenance_RestoreClient.Send assert [C18.upload.chunk+C07] m != nil && typeIs(m.Data, *regattapb.RestoreMessage_Chunk) && asType(m.Data, *regattapb.RestoreMessage_Chunk) != nil && asType(m.Data, *regattapb.RestoreMessage_Chunk).Chunk != nil && sameSlice(asType(m.Data, *regattapb.RestoreMessage_Chunk).Chunk.Data, p) && asType(m.Data, *regattapb.RestoreMessage_Chunk).Chunk.Len == len(p)
+//@   ensures [C18.upload.count+C07] (err == nil ==> n == len(p)) && (err != nil ==> n == 0)
 //@   modifies nothing
 //@ iface regattapb.Maintenance_RestoreClient.CloseAndRecv
 //@   assumed
